@@ -12,7 +12,7 @@ import collections
 
 from mc.simtor import longname
 
-Circ = collections.namedtuple('Circ', 'state hops')          # state: LAUNCHED EXTENDED BUILT ; hops: 0..3
+Circ = collections.namedtuple('Circ', 'state hops purp', defaults=(0,))   # state: LAUNCHED EXTENDED BUILT ; hops: 0..3 ; purp: 0 original, 1 changed
 Strm = collections.namedtuple('Strm', 'state circ remapped')  # state: NEW NEWRESOLVE SENTCONNECT SUCCEEDED DETACHED; circ: 0|cid
 
 CIDS = (1, 2)
@@ -20,6 +20,12 @@ SIDS = (1, 2)
 # hop relay numbers per circuit id; circuit 2 runs through a relay that is not in the consensus, '=' name form
 PATHS = {1: [(1, False), (2, False), (3, False)], 2: [(1, True), (9, False), (3, True)]}
 PURPOSE = {1: 'GENERAL', 2: 'HS_CLIENT_REND'}
+ALT_PURPOSE = {1: 'HS_SERVICE_REND', 2: 'GENERAL'}       # after the circuit was cannibalised
+
+
+def purpose(cid, purp=0):
+    return ALT_PURPOSE[cid] if purp else PURPOSE[cid]
+
 BUILD_FLAGS = {1: 'NEED_CAPACITY', 2: 'IS_INTERNAL,NEED_CAPACITY'}
 TARGET = {1: ('www.example.com', 80), 2: ('10.9.9.9', 443)}
 REMAP_IP = {1: '93.184.216.34', 2: '10.9.9.9'}
@@ -39,13 +45,13 @@ def path_hex(cid, hops):
     return ['$' + relay_hex(n) for n, eq in PATHS[cid][:hops]]
 
 
-def circ_line(cid, state, hops, extra=''):
+def circ_line(cid, state, hops, extra='', purp=0):
     """what follows 'CIRC ' in the event / one line of circuit-status"""
     p = path_str(cid, hops)
     s = '%d %s' % (cid, state)
     if p:
         s += ' ' + p
-    s += ' BUILD_FLAGS=%s PURPOSE=%s TIME_CREATED=2030-01-01T00:00:0%d.000000' % (BUILD_FLAGS[cid], PURPOSE[cid], cid)
+    s += ' BUILD_FLAGS=%s PURPOSE=%s TIME_CREATED=2030-01-01T00:00:0%d.000000' % (BUILD_FLAGS[cid], purpose(cid, purp), cid)
     if extra:
         s += ' ' + extra
     return s
@@ -65,7 +71,7 @@ def tgt(sid, remapped=False):
     return '%s:%d' % (h, p)
 
 
-def enabled(state):
+def enabled(state, maxhops=3):
     """-> list of (label, event_name, line, next_state)"""
     circs, strms = state
     out = []
@@ -76,20 +82,25 @@ def enabled(state):
             n[c] = Circ('LAUNCHED', 0)
             out.append(('C%d-LAUNCHED' % c, 'CIRC', circ_line(c, 'LAUNCHED', 0), (n, strms)))
         else:
-            if cur.state in ('LAUNCHED', 'EXTENDED') and cur.hops < 3:
+            if cur.state in ('LAUNCHED', 'EXTENDED') and cur.hops < maxhops:
                 n = dict(circs)
                 n[c] = Circ('EXTENDED', cur.hops + 1)
                 out.append(('C%d-EXTENDED' % c, 'CIRC', circ_line(c, 'EXTENDED', cur.hops + 1), (n, strms)))
-            if cur.state == 'EXTENDED' and cur.hops == 3:
+            if cur.state == 'EXTENDED' and cur.hops == maxhops:
                 n = dict(circs)
-                n[c] = Circ('BUILT', 3)
-                out.append(('C%d-BUILT' % c, 'CIRC', circ_line(c, 'BUILT', 3), (n, strms)))
+                n[c] = Circ('BUILT', maxhops)
+                out.append(('C%d-BUILT' % c, 'CIRC', circ_line(c, 'BUILT', maxhops), (n, strms)))
+            if cur.state == 'BUILT' and cur.purp == 0:
+                # a built circuit is cannibalised for another purpose; Tor reports it BUILT again with the new PURPOSE
+                n = dict(circs)
+                n[c] = Circ('BUILT', cur.hops, 1)
+                out.append(('C%d-BUILT-repurposed' % c, 'CIRC', circ_line(c, 'BUILT', cur.hops, purp=1), (n, strms)))
             # closing: streams on it keep naming it (as -cid: the dead incarnation) until their own event arrives
             n = dict(circs)
             del n[c]
             ns = dict((k, (v._replace(circ=-c) if v.circ == c else v)) for k, v in strms.items())
             if cur.state == 'BUILT':
-                out.append(('C%d-CLOSED' % c, 'CIRC', circ_line(c, 'CLOSED', cur.hops, 'REASON=DESTROYED REMOTE_REASON=FINISHED'), (n, ns)))
+                out.append(('C%d-CLOSED' % c, 'CIRC', circ_line(c, 'CLOSED', cur.hops, 'REASON=DESTROYED REMOTE_REASON=FINISHED', purp=cur.purp), (n, ns)))
             else:
                 out.append(('C%d-FAILED' % c, 'CIRC', circ_line(c, 'FAILED', cur.hops, 'REASON=TIMEOUT'), (n, ns)))
                 out.append(('C%d-CLOSED-unbuilt' % c, 'CIRC', circ_line(c, 'CLOSED', cur.hops, 'REASON=FINISHED'), (n, ns)))
@@ -160,7 +171,7 @@ def snapshot(state):
     """(circuit-status lines, stream-status lines) describing a model state.  Streams attached to a circuit that
     already closed are rendered unattached (Tor lists live objects only)."""
     circs, strms = state
-    cl = [circ_line(c, v.state, v.hops) for c, v in sorted(circs.items())]
+    cl = [circ_line(c, v.state, v.hops, purp=v.purp) for c, v in sorted(circs.items())]
     sl = []
     for s, v in sorted(strms.items()):
         on = v.circ if v.circ > 0 else 0
